@@ -18,6 +18,10 @@ def applicable(obj):
         calls.append(('replace_this_with_var:M', lambda: R.replace_this_with_var(obj, 'M')))
         for a in ('v', 'A'):
             calls.append(('replace_var_with_this:' + a, lambda a=a: R.replace_var_with_this(obj, a)))
+        # a variable replaced by a FRESHLY built accessor / a parsed accessor chain (what an API user passes)
+        from hpl.ast.expressions import HplFieldAccess, HplThisMessage
+        calls.append(('replace_var_reference:v:=zz', lambda: obj.replace_var_reference('v', HplFieldAccess(HplThisMessage(), 'zz'))))
+        calls.append(('replace_var_reference:A:=m.idx[0]', lambda: obj.replace_var_reference('A', _parsed_accessor())))
         isbool = isinstance(obj, HplPredicate) or obj.data_type == DataType.BOOL
         if isbool:
             calls.append(('split_and', lambda: R.split_and(obj)))
@@ -27,6 +31,11 @@ def applicable(obj):
         calls.append(('negate', lambda: obj.negate()))
         calls.append(('join_self', lambda: obj.join(obj)))
     return calls
+
+
+def _parsed_accessor():
+    from harness.drive import call_parser
+    return call_parser('expression', 'm.idx[0]')[1]
 
 
 def results_of(r):
